@@ -14,14 +14,18 @@ ANCHORS = {'NmVerif.strides': 'index::compute_strides', 'NmVerif.computeOffset':
            'NmVerif.NDA.get?/set': 'array::ndarray_t::operator() with row_major_offset_t / column_major_offset_t'}
 MANIFEST = dict(
     text='Proof: 16 Lean theorems (round trip both ways, in-shape, suffix-product strides, enumeration = lexicographic list of all multi-indices without repetition, row/column-major get/set laws) for every rank and extent; tied to the C++ by an exhaustive small-scope + large-extent differential run of compute_strides/compute_offset/compute_indices/ndindex/ndarray_t access on every check.',
-    note='Lean kernel + propext/Classical.choice/Quot.sound; model hand-written, fidelity rests on the correspondence run; unbounded Nat in the model, machine width covered by intermediates_le_prod and extents near 2^31/2^40; ct/clipped index kinds are in C09.',
+    note='Lean kernel + propext/Classical.choice/Quot.sound; model hand-written, fidelity rests on the correspondence run; unbounded Nat in the model, machine width covered by intermediates_le_prod and extents near 2^31/2^40; compile-time-constant and clipped argument kinds of compute_strides / compute_offset / compute_indices / product / ndindex run over a fixed table in a generated TU (harness/gen_c01_ct.py); the full kind matrix is C09.',
     technique='Lean 4 induction proofs over List Nat shapes + differential correspondence (exhaustive small scope)')
 ASSUMPTIONS = ['size_t arithmetic does not wrap: Props.C01.intermediates_le_prod + large-extent cases below 2^40',
                'compile-time-constant and clipped index kinds are covered by C09 kind matrix, not here']
 
 
 def harness_specs(tier):
-    return [dict(name='h_c01', src='h_c01.cpp', flavour='fast')]
+    return [dict(name='h_c01', src='h_c01.cpp', flavour='fast'),
+            dict(name='h_c01ct', src='h_c01ct.cpp', flavour='fast')]     # generated: harness/gen_c01_ct.py
+
+
+CT_TABLE = [[2, 3, 4], [3, 2], [4], [2, 1, 3], [1], [3, 3], [2, 2, 2, 2], [4, 3]]     # = TABLE of harness/gen_c01_ct.py
 
 
 def strides_py(s):
@@ -65,6 +69,24 @@ def gen(tier, rng):
             yield Case('nd_get shape=%s layout=col idx=%s' % (fmt(s), fmt(idx)), 'h_c01', oracle='ok %d' % coff, nontrivial=nt, tags=['nd_get', 'col'])
             yield Case('nd_set shape=%s layout=row idx=%s' % (fmt(s), fmt(idx)), 'h_c01', oracle='ok %d' % off, nontrivial=nt, tags=['nd_set', 'row'])
             yield Case('nd_set shape=%s layout=col idx=%s' % (fmt(s), fmt(idx)), 'h_c01', oracle='ok %d' % coff, nontrivial=nt, tags=['nd_set', 'col'])
+    # compile-time-constant / clipped argument kinds (fixed table of harness/gen_c01_ct.py): the all-constant branches of
+    # the index functions compute their answer in the TYPE (`ct<...>` tuples) through code of their own (seeded C01-2)
+    for s in CT_TABLE:
+        n = prod(s); st = strides_py(s); nt = sum(1 for e in s if e > 1) >= 2
+        for k in ('ct', 'cl'):
+            yield Case('strides shape=%s kind=%s' % (fmt(s), k), 'h_c01ct', oracle='ok ' + fmt(st), nontrivial=nt, tags=['strides', 'kind=' + k])
+        yield Case('product shape=%s kind=ct' % fmt(s), 'h_c01ct', oracle='ok %d' % n, nontrivial=nt, tags=['product', 'kind=ct'])
+        for off in list(range(n)) + [n, n + 1]:
+            idx = indices_py(off, s)
+            for k in ('ct', 'ctshape', 'ctoff', 'cl'):
+                yield Case('indices off=%d shape=%s kind=%s' % (off, fmt(s), k), 'h_c01ct', oracle='ok ' + fmt(idx), nontrivial=nt,
+                           tags=['indices', 'kind=' + k, 'oob-offset' if off >= n else 'offset<n'])
+            if off < n:
+                yield Case('ndindex off=%d shape=%s kind=ct' % (off, fmt(s)), 'h_c01ct', oracle='ok ' + fmt(idx), model=False, nontrivial=nt, tags=['ndindex', 'kind=ct'])
+        for idx in all_idx(s):
+            off = offset_py(idx, st)
+            for k in ('ct', 'ctidx'):
+                yield Case('offset idx=%s strides=%s kind=%s' % (fmt(idx), fmt(st), k), 'h_c01ct', oracle='ok %d' % off, nontrivial=nt, tags=['offset', 'kind=' + k])
     # large extents, index math only
     nlarge = 400 if tier == 'quick' else 5000
     for t in range(nlarge):
